@@ -24,10 +24,13 @@ def run(ctx):
     q = ctx.quick()
     heapcheck.component(ctx, res, pred_heap, 3000 if q else 60000, "predicate: parent/child/sibling pointers stay inside the stream, no cycle, child chains = attached slots")
     heapcheck.end_to_end(ctx, res, pred_seg, 150 if q else 2500, 6 if q else 12, 10 if q else len(heapcheck.WORDS))
+    heapcheck.shape_stage(ctx, res, 120 if q else 3000, 6 if q else 12)
     return res.as_dict()
 
 
 def replay(ctx, obj):
+    if obj.get("mode") == "shape":
+        return heapcheck.replay_shape(obj)
     if obj.get("mode") == "e2e":
         return heapcheck.replay_e2e(obj, pred_seg)
 
